@@ -861,6 +861,8 @@ def iter_zip(it, args, n, f):
 @model("std::iter::Iterator::all", doc="all over a zipped pair of sequences: the predicate on one symbolic pair")
 def iter_all(it, args, n, f):
     src = it.val_force(args[0])
+    while isinstance(src, RefV):
+        src = it.force(src.cell)
     if isinstance(src, ZipV):
         pair = TupleV([Cell(SymV("item_a"), "0"), Cell(SymV("item_b"), "1")])
         r = it.call_value(args[1], [pair], {"ty": None})
@@ -869,6 +871,11 @@ def iter_all(it, args, n, f):
     if isinstance(src, StructV):
         d = walker_desc(it, src)
         item = SymV("item_a")
+        fn_ = it.val_force(args[1])
+        if isinstance(fn_, ClosureV):
+            ps = [p for p in it.facts.bodies[fn_.path]["thir"]["params"] if p.get("pat") is not None]
+            if ps:
+                item = UnkV(ps[0]["ty"], "item_a")
         r = it.call_value(args[1], [item], {"ty": None})
         it.emit("seq_all", a=d, pred=repr(r))
         return BoolV(it.choose("bool:seq_all", [False, True]))
@@ -1004,3 +1011,19 @@ def vec_clone(it, args, n, f):
 @model("std::cell::UnsafeCell::<T>::new", doc="wraps the value (identity in the abstraction)")
 def unsafecell_new(it, args, n, f):
     return args[0]
+
+
+@model("<std::vec::Vec<T, A> as std::clone::Clone>::clone_from", "std::clone::Clone::clone_from",
+       doc="overwrite the destination with a clone of the source")
+def vec_clone_from(it, args, n, f):
+    dst = vec_of(it, args[0])
+    src = vec_of(it, args[1])
+    if isinstance(dst, ArenaVecV) and isinstance(src, ArenaVecV):
+        it.emit("vec_clone", src=src.arena.name, dst=dst.arena.name, what="nodes")
+        return UnitV()
+    if isinstance(dst, VecV) and isinstance(src, VecV):
+        it.emit("vec_clone", src=src.obj.name, dst=dst.obj.name, what="vec")
+        dst.obj.items = list(src.obj.items)
+        dst.obj.base = src.obj.base
+        return UnitV()
+    raise Unrecognised("clone_from %r <- %r" % (dst, src))
